@@ -41,7 +41,7 @@ CHECKS["C01"] = {
     "design_ref": "DESIGN.md section 5, C01",
     "technique": "Verus contract on the extracted real text of both decode() functions, generic in the arithmetic (one proof covers all 36 instantiations)",
     "text": "Unbounded proof, for every arithmetic implementing the trait, every matrix, every LLR vector and every limit below usize::MAX, that decode() of both schedules returns results satisfying the verdict / word / iteration-count relation of the property, relative to the trusted contracts of its callees.",
-    "note": "Trusted: check_llrs, hard_decisions, initialize, process_* (external_body; frames derived from the source's syntactic write sets), purity of llr_hard_decision/var_llr_to_llr, one f64 axiom, parity_ok uninterpreted. The trusted contracts are cross-checked on the real decoders by bounded Kani harnesses where registered (see evidence).",
+    "note": "Trusted: check_llrs, hard_decisions, initialize, process_* (external_body; frames derived from the source's syntactic write sets), purity of llr_hard_decision/var_llr_to_llr, one f64 axiom, parity_ok uninterpreted. The trusted contracts are cross-checked on the real 8-bit decoders (both families, both schedules) by bounded Kani harnesses on a 2x3 / 3x4 matrix for all f64 LLRs (see evidence for each bound).",
 }
 CHECKS["C10"] = {
     "engine": "verus",
